@@ -24,7 +24,9 @@ InputTypes ==
     By     |-> [oneOf |-> TRUE,
                 fields |-> << IFd("id", <<>>, "ID"), IFd("name", <<>>, "String"), IFd("filter", <<>>, "Filter"),
                               IFd("many", <<"L", "R">>, "Int"), IFd("match", <<>>, "Color"),
-                              IFd("legacy_id", <<>>, "ID"), IFd("userID", <<>>, "Int"), IFd("URL", <<>>, "String") >>] ]
+                              IFd("legacy_id", <<>>, "ID"), IFd("userID", <<>>, "Int"), IFd("URL", <<>>, "String"),
+                              \* nested lists with nullable inner lists (every wrapper of a @oneOf member survives)
+                              IFd("grid", <<"L", "L">>, "Int"), IFd("cube", <<"L", "L", "R", "L", "R">>, "Int") >>] ]
 
 \* schema default values (`type: Int! = 25`): a default lets the SERVER fill in an omitted member; it changes
 \* neither the member's type nor what the client may send, so a non-null member stays non-null
